@@ -1065,7 +1065,18 @@ static int app_fire_due_events(int limit)
     if (nd == 0) {
       break;
     }
-    pick = due[vh_below(&sim_rng, (uint32_t)nd)];
+    if (sim_fifo_events) {
+      /* A/B differential: common events fire in the same (time, insertion) order in both runs */
+      int k, best = due[0];
+      for (k = 1; k < nd; k++) {
+        if (sim_ev[due[k]].t < sim_ev[best].t || (sim_ev[due[k]].t == sim_ev[best].t && sim_ev[due[k]].seq < sim_ev[best].seq)) {
+          best = due[k];
+        }
+      }
+      pick = best;
+    } else {
+      pick = due[vh_below(&sim_rng, (uint32_t)nd)];
+    }
     {
       sim_ev_t e = sim_ev[pick];
       sim_ev[pick].live = 0;
